@@ -187,6 +187,8 @@ type Frame struct {
 	free []Val
 	// loop bookkeeping for the current path
 	inLoop map[*ssa.BasicBlock]bool
+	// values of the loop variants (`loop N decreases e`) at the loop head, for the iteration being executed
+	variants map[*ssa.BasicBlock][]Term
 	// deferred calls
 	defers []deferred
 	// result handling
@@ -216,6 +218,12 @@ func (f *Frame) cloneForPath() *Frame {
 	n.inLoop = make(map[*ssa.BasicBlock]bool, len(f.inLoop))
 	for k, v := range f.inLoop {
 		n.inLoop[k] = v
+	}
+	if f.variants != nil {
+		n.variants = make(map[*ssa.BasicBlock][]Term, len(f.variants))
+		for k, v := range f.variants {
+			n.variants[k] = v
+		}
 	}
 	n.defers = append([]deferred(nil), f.defers...)
 	return &n
